@@ -9,7 +9,7 @@ import common
 import xref
 from common import Stats
 
-CLASSES = {"ok": ["0"], "fail": ["1", "2", "125", "64", "3"], "urgent": ["255"], "signal": ["k9", "k15", "k11", "k6"]}
+CLASSES = {"ok": ["0"], "fail": ["1", "2", "125", "64", "3"], "urgent": ["255"], "signal": ["k9", "k15", "k11", "k6", "k13", "k1", "k2", "k3"]}
 
 
 def model(seq):
@@ -189,6 +189,9 @@ def special_cases(ctx):
         ("usage -L -1", ["-L", "-1"], None, b"a\n", 1, 0),
         ("usage -L 0", ["-L", "0"], None, b"a\n", 1, 0),
         ("usage -d xx", ["-d", "xx"], None, b"a\n", 1, 0),
+        ("usage -d with one multi-byte character", ["-d", "é"], None, "aébéc\n".encode(), 1, 0),
+        ("usage --delimiter= with one multi-byte character", ["--delimiter=€"], None, "a€b\n".encode(), 1, 0),
+        ("usage -d with an empty operand", ["-d", ""], None, b"a\n", 1, 0),
         ("usage unknown option", ["--no-such-option"], None, b"a\n", 1, 0),
         ("unterminated single quote", [], None, b"a 'b c\n", 1, None),
         ("opening single quote is the last byte", [], None, b"a b '", 1, 0),
